@@ -50,7 +50,7 @@ def flush_spec(p, rng, k):
 def run(ctx):
     d = ctx.stage("DTD")
     exe = ctx.harness("run_prog", ["harness/dtd/run_prog.c"])
-    base.model_check(ctx, d)
+    base.model_check(ctx, d, dup=False)
     if ctx.quick:
         progs = base.gen_programs(ctx, d, "f3", 3, 8, 2, 30) + base.gen_programs(ctx, d, "f4", 4, 10, 3, 20)
         ranks = [1, 2, 3, 4]
